@@ -84,6 +84,21 @@ def mk_items(rng, specs):
         else:
             tb, grp = sp[1], sp[2]
         items.append(Item(grp, tb, bare))
+    # now and then all members of a group carry the SAME AIS sentence (one message relayed by several receivers): the tag
+    # blocks differ, the sentence bodies are equal (and compare equal: NMEASentence.__eq__ looks at the AIS fields only)
+    if rng.random() < 0.25:
+        first, tbs_seen = {}, {}
+        for it, sp in zip(items, specs):
+            if sp[0] == 'g':
+                if sp[1] == 1:
+                    first.pop(sp[3], None)       # a new instance of this group id starts with its own sentence body
+                    tbs_seen.pop(sp[3], None)
+                if sp[3] in first and it.tb not in tbs_seen[sp[3]]:      # (same body AND same tag block would make two
+                    it.bare = first[sp[3]]                               #  sentences indistinguishable for the harness)
+                    it.line = it.bare if it.tb is None else b'\\' + it.tb + b'\\' + it.bare
+                elif sp[3] not in first:
+                    first[sp[3]] = it.bare
+                tbs_seen.setdefault(sp[3], set()).add(it.tb)
     return items
 
 
@@ -124,8 +139,8 @@ def feed_direct(items, order, parsed):
         except Exception as e:
             steps.append(exc_view(e))
             continue
-        steps.append([[pos[id(x)] for x in lst] for lst in drain(tbq)])
-    groups = [(gid, v['sentence_tot'], [pos[id(x)] for x in v['sentences']]) for gid, v in tbq.groups.items()]
+        steps.append([[pos.get(id(x), -1) for x in lst] for lst in drain(tbq)])
+    groups = [(gid, v['sentence_tot'], [pos.get(id(x), -1) for x in v['sentences']]) for gid, v in tbq.groups.items()]
     return steps, groups
 
 
@@ -134,16 +149,18 @@ def by_content(lines_tb):
 
 
 def view_lists(lists, index):
-    # the bare lines are pairwise different.  A reader assembles a multi-fragment message IN the object of its first
-    # fragment (its .raw becomes the fragments joined by LF), and that object is the one sitting in the group list:
-    # identify it by the first line of .raw
-    return [[index[x.raw.split(b'\n')[0]] for x in lst] for lst in lists]
+    # A sentence is identified by its bare line plus its tag block (members of one group may carry the same AIS body).  A
+    # reader assembles a multi-fragment message IN the object of its first fragment (its .raw becomes the fragments joined
+    # by LF), and that object is the one sitting in the group list: identify it by the first line of .raw
+    def key(x):
+        return (x.raw.split(b'\n')[0], x.tag_block.raw if x.tag_block else None)
+    return [[index.get(key(x), -1) for x in lst] for lst in lists]
 
 
 def feed_iter(items, order):
     from pyais.stream import IterMessages, TagBlockQueue
     tbq = TagBlockQueue()
-    index = by_content([items[k].bare for k in order])
+    index = by_content([(items[k].bare, items[k].tb) for k in order])
     steps, delivered = [], []
 
     def src():
@@ -167,7 +184,7 @@ def feed_queue(items, order):
     import queue
     tbq = TagBlockQueue()
     q = NMEAQueue(tbq=tbq)
-    index = by_content([items[k].bare for k in order])
+    index = by_content([(items[k].bare, items[k].tb) for k in order])
     steps, delivered = [], []
     for k in order:
         try:
@@ -539,6 +556,7 @@ def run(ctx):
     check_batch(ctx, [many_open(rng, n) for n in ((17, 33, 70) if ctx.quick else (17, 18, 33, 64, 65, 130, 257, 600))],
                 'random-many-open')
     check_batch(ctx, [many_open(rng, 20)], 'random-many-open+readers', readers=True)
+    two_queues(ctx)
     # through the readers as well
     sample = [random_wf(rng, max_groups=4, max_size=4) for _ in range(ctx.budget(120, 1500))]
     for sizes, nu in QUICK_CONFIGS[:6]:
@@ -578,6 +596,85 @@ def run(ctx):
     check_batch(ctx, mut, 'mutated')
 
 
+def two_queues(ctx):
+    """Two TagBlockQueue objects alive at once, fed alternately with groups that use the SAME group ids: every queue
+    must deliver exactly what the specification says for ITS OWN input (bookkeeping shared between queue objects, or kept
+    from a queue that is no longer used, shows only here)."""
+    from pyais.stream import TagBlockQueue
+    from pyais.messages import TagBlock, NMEASentenceFactory
+    rng, rep = ctx.rng, ctx.rep
+    for rnd in range(ctx.budget(6, 60)):
+        gids = rng.sample(range(1, 50), rng.choice([1, 2, 3]))
+        feeds = []
+        for q in (0, 1):
+            specs = []
+            for g in gids:
+                size = rng.choice([2, 3, 4])
+                specs += [('g', n, size, g, True) for n in range(1, size + 1)]
+            feeds.append(mk_items(rng, specs))
+        queues = [TagBlockQueue(), TagBlockQueue()]
+        sched = [(q, k) for q in (0, 1) for k in range(len(feeds[q]))]
+        # a random merge of the two feeds (each feed keeps its own order: first sentences first)
+        order, idx = [], [0, 0]
+        while idx[0] < len(feeds[0]) or idx[1] < len(feeds[1]):
+            q = rng.choice([q for q in (0, 1) if idx[q] < len(feeds[q])])
+            order.append((q, idx[q]))
+            idx[q] += 1
+        pos = [{}, {}]
+        steps = [[], []]
+        for q, k in order:
+            it = feeds[q][k]
+            s = NMEASentenceFactory.produce(it.bare)
+            s.tag_block = TagBlock(it.tb)
+            pos[q][id(s)] = k
+            try:
+                queues[q].put_sentence(s)
+                steps[q].append([[pos[q].get(id(x), -1) for x in lst] for lst in drain(queues[q])])
+            except Exception as e:   # noqa: BLE001
+                steps[q].append(exc_view(e))
+        for q in (0, 1):
+            grps = [it.grp for it in feeds[q]]
+            rep.case(('two-queues', rnd, q, tuple(it.tb for it in feeds[q])), kind='two-queues')
+            wf, want = (True, py_spec(grps))
+            if ctx.model:
+                wf, want = parse_spec(ctx.model.ask('tbqspec ' + ' '.join(grp_tok(g) for g in grps)))
+            if any(-1 in lst for st in steps[q] if isinstance(st, list) for lst in st) or steps[q] != want:
+                rep.violation({'entry': 'put_sentence', 'component': 'delivery', 'kind': 'affected-by-another-queue'},
+                              f'with two TagBlockQueue objects fed alternately (same group ids {gids}), queue {q} delivered '
+                              f'{steps[q]} for its own input, the specification gives {want}',
+                              {'two_queues': True, 'feeds': [[tb_tok(it.tb) for it in f] for f in feeds],
+                               'order': order, 'entry': 'put_sentence'})
+                break
+
+
+def replay_two_queues(data):
+    from pyais.stream import TagBlockQueue
+    from pyais.messages import TagBlock, NMEASentenceFactory
+    bare = b'!AIVDM,1,1,,A,15M67FC000G?ufbE`FepT@3n00Sa,0*5C'
+    queues = [TagBlockQueue(), TagBlockQueue()]
+    fed = [[], []]
+    pos = [{}, {}]
+    steps = [[], []]
+    for q, k in data['order']:
+        s = NMEASentenceFactory.produce(bare)
+        s.tag_block = TagBlock(bytes.fromhex(data['feeds'][q][k]))
+        pos[q][id(s)] = k
+        try:
+            queues[q].put_sentence(s)
+            steps[q].append([[pos[q].get(id(x), -1) for x in lst] for lst in drain(queues[q])])
+        except Exception as e:   # noqa: BLE001
+            return f'put_sentence raised {type(e).__name__}'
+    for q in (0, 1):
+        grps = []
+        for h in data['feeds'][q]:
+            t = TagBlock(bytes.fromhex(h))
+            t.init()
+            grps.append((t.group.sentence_num, t.group.sentence_tot, t.group.group_id))
+        if steps[q] != py_spec(grps):
+            return f'queue {q} delivered {steps[q]} for its own input, the specification gives {py_spec(grps)}'
+    return None
+
+
 def hunt(ctx):
     """Something no longer checks: every configuration of up to 3 groups of sizes <= 3 exhaustively, then random
     sequences up to size 6."""
@@ -587,6 +684,8 @@ def hunt(ctx):
 
 
 def replay(ctx, data):
+    if data.get('two_queues'):
+        return replay_two_queues(data)
     import vlib
     rep = vlib.Report('C17', 'quick', 0)
 
